@@ -69,10 +69,36 @@ def run(case, tag):
     log = []          # every object of the test classes constructed concretely, in creation order
     COUNT['init'] = 0
     out = []
+    block = None                       # a symbolic block kept open from 'query_in_block' to the 'symbolic_in_block' that follows it
     for op in case['ops']:
         k = op[0]
         res = []
-        if k == 'concrete':
+        if block is not None and k != 'symbolic_in_block':          # (a shrunk history: the block is closed by whatever follows)
+            block.__exit__(None, None, None)
+            block = None
+        if k == 'symbolic_in_block' and block is None:
+            block = symbolic_mode()
+            block.__enter__()
+        if k == 'query_in_block':
+            K = classes[op[1]]
+            block = symbolic_mode()
+            block.__enter__()
+            q = an(entity(let(K)))
+            found = list(q.evaluate())
+            idx = {id(o): i for i, o in enumerate(log)}
+            res = [idx.get(id(o), 'u') for o in found]
+        elif k == 'symbolic_in_block':
+            K = classes[op[1]]
+            try:
+                v = K() if op[2] == 'plain' else K(f0=1)
+            finally:
+                block.__exit__(None, None, None)
+                block = None
+            if not isinstance(v, SymbolicExpression):
+                res = ['not-symbolic']
+                if isinstance(v, K):
+                    log.append(v)
+        elif k == 'concrete':
             K = classes[op[1]]
             style = op[2]
             o = K(1, 2) if style == 'pos' else K(f0=1) if style == 'kw' else K(f1=2, f0=0) if style == 'kw2' else K()
@@ -140,6 +166,8 @@ def run(case, tag):
             idx = {id(o): i for i, o in enumerate(log)}
             res = [idx.get(id(o), 'u') for o in found]
         out.append('[' + ','.join(str(x) for x in res) + ']n' + str(COUNT['init']))
+    if block is not None:
+        block.__exit__(None, None, None)
     clear_registry()
     return ' '.join(out)
 
